@@ -119,6 +119,9 @@ class World:
         self.origin = {}
         self.distinct = set()
         self.seen_values = set()
+        self.fresh_vecs = []  # (first variable name, z3 term of the whole vector, length)
+        if c.symbolic:
+            c.e.at_path_end.append(self._no_collisions_in_model)
 
     def fresh(self, tag, n):
         self.n += 1
@@ -134,6 +137,7 @@ class World:
         if n >= 12 and self.c.symbolic:
             items = V.seq_items(v)
             self.origin[id(items[0])] = (self.n, items)
+            self.fresh_vecs.append((f"{tag}{self.n}", items, n))
         elif n >= 12:
             if bytes(v) in self.seen_values:
                 from vlib.api import NativeAssumeFailed
@@ -141,6 +145,19 @@ class World:
                 raise NativeAssumeFailed("concrete values violate the no-collision assumption of the ideal primitives")
             self.seen_values.add(bytes(v))
         return v
+
+    def _no_collisions_in_model(self, eng):
+        """the path's model must respect the no-collision assumption: fresh vectors the path condition talks about are pairwise distinct
+        (unconstrained ones get distinct pseudo-random defaults anyway)"""
+        import z3
+
+        used = [(name, items, n) for name, items, n in self.fresh_vecs if any(f"{name}[{i}]" in eng.used_vars for i in range(n))]
+        for i in range(len(used)):
+            for j in range(i + 1, len(used)):
+                if used[i][2] == used[j][2]:
+                    e = V.SymBytes(used[i][1]) == V.SymBytes(used[j][1])
+                    if isinstance(e, V.SymBool):
+                        eng.add(z3.Not(e.t))
 
     def whole_draw(self, seq):
         """draw number if seq is exactly one fresh vector (same solver symbols, same order), else None"""
@@ -166,9 +183,19 @@ class World:
         return False
 
     # -- ideal KDF: a function; fresh output for new arguments
+    KDF_CAP = 600  # one operation needs at most 67 key-derivation steps and no harness performs more than 8 operations; beyond the cap the work budget is exceeded
+
     def kdf(self, algorithm, secret, label, context, length):
         self.kdf_calls += 1
         self.c.count("kdf")
+        if self.kdf_calls > self.KDF_CAP:
+            if self.c.symbolic:
+                from symex.engine import BudgetExceeded
+
+                raise BudgetExceeded(f"more than {self.KDF_CAP} key-derivation steps")
+            from vlib.api import NativeBudget
+
+            raise NativeBudget()
         length = self.c.concretize(length)
         key = (algorithm.name, bytes(label), length)
         recs = self.kdf_records.setdefault(key, [])
@@ -274,6 +301,12 @@ class World:
 # ---------------------------------------------------------------------------------------------- Diffie-Hellman algebra
 
 
+def neg_(a):
+    from vlib.api import neg
+
+    return neg(a)
+
+
 class Algebra:
     """Group elements are identified by (generator, multiset of exponents); equal identity <=> same value symbols.
     Nothing else is assumed about the group (no discrete logs, no coincidences).  Both finite-field DH (builtin pow with a
@@ -332,6 +365,12 @@ class Algebra:
         bits = mod.bit_length() if isinstance(mod, int) else mod.hi.bit_length()
         v = self._fresh_int("dh", max(bits, 1))
         self.c.assume(v < mod)
+        # no coincidences: a new group element differs from every element (and generator) seen so far in this group
+        for r in self.ff:
+            if truth(self._eq(r["mod"], mod)):
+                self.c.assume(neg_(self._eq(v, r["value"])))
+                self.c.assume(neg_(self._eq(v, r["gen"])))
+        self.c.assume(neg_(self._eq(v, gen)))
         self.ff.append(dict(mod=mod, gen=gen, exps=exps, value=v))
         return v
 
@@ -342,6 +381,9 @@ class Algebra:
                 return r
         bits = self.CURVE_BITS[curve]
         r = dict(curve=curve, gen=gen, exps=exps, x=self._fresh_int("ecx", bits), y=self._fresh_int("ecy", bits))
+        for o in self.ec:
+            if o["curve"] == curve:
+                self.c.assume(neg_(all_of([self._eq(o["x"], r["x"]), self._eq(o["y"], r["y"])])))
         self.ec.append(r)
         return r
 
